@@ -13,7 +13,7 @@ FLAGS="-std=c++20 -O1 -g -fsanitize=$SAN -pthread -I/repo/_build/include -I$WT/i
 g++ $FLAGS "$D/demo.cpp" -o $WT/demo_clean 2>$WT/cc.log || { echo "VET: demo does not compile on clean tree"; tail -5 $WT/cc.log; exit 1; }
 ( cd $WT && timeout 300 ./demo_clean >/dev/null 2>&1 ); RC_CLEAN=$?
 git -C $WT apply "$D/patch.diff" || { echo "VET: patch does not apply"; exit 1; }
-TESTS=$(/tmp/mut/run_tests.sh $WT 2>&1 | tail -1)
+TESTS=$(/verif/tools/run_unit_tests.sh $WT 2>&1 | tail -1)
 g++ $FLAGS "$D/demo.cpp" -o $WT/demo_mut 2>$WT/cc.log || { echo "VET: demo does not compile with patch"; exit 1; }
 ( cd $WT && timeout 300 ./demo_mut >/dev/null 2>&1 ); RC_MUT=$?
 echo "VET: tests='$TESTS' demo_clean_rc=$RC_CLEAN demo_mutant_rc=$RC_MUT"
